@@ -213,28 +213,31 @@ def coqchk(prop_id, timeout=1800):
 # Rust harness and OCaml runners
 # ---------------------------------------------------------------------------------------------
 
-def harness_dir():
-    """The harness crate to build: rust/harness for /repo; for VERIF_REPO=<scratch copy> a shadow
-    crate under /tmp whose path dependencies point at the copy (used to try mutants without touching /repo)."""
+def harness_dir(crate="harness"):
+    """The harness crate to build: rust/<crate> for /repo; for VERIF_REPO=<scratch copy> a shadow
+    copy under /tmp whose path dependencies point at the copy (used to try mutants without touching /repo)."""
     if REPO == "/repo":
-        return HARNESS, TARGET
+        return os.path.join(ROOT, "rust", crate), TARGET
     tag = hashlib.sha1(REPO.encode()).hexdigest()[:8]
-    d = "/tmp/pvharness-%s" % tag
-    os.makedirs(d, exist_ok=True)
-    toml = open(os.path.join(HARNESS, "Cargo.toml")).read().replace('"/repo/', '"%s/' % REPO.rstrip("/"))
-    write_if_changed(os.path.join(d, "Cargo.toml"), toml)
-    sh("rm -rf %s/src %s/.cargo; cp -r %s/src %s/src; cp -r %s/.cargo %s/.cargo; cp %s/Cargo.lock %s/Cargo.lock" %
-       (d, d, HARNESS, d, HARNESS, d, REPO, d))
-    return d, "/tmp/pvtarget-%s" % tag
+    root = "/tmp/pvharness-%s" % tag
+    for c in ("harness", "harness-nm"):
+        d = os.path.join(root, c)
+        os.makedirs(d, exist_ok=True)
+        src = os.path.join(ROOT, "rust", c)
+        toml = open(os.path.join(src, "Cargo.toml")).read().replace('"/repo/', '"%s/' % REPO.rstrip("/"))
+        write_if_changed(os.path.join(d, "Cargo.toml"), toml)
+        sh("rm -rf %s/src %s/.cargo; [ -d %s/src ] && cp -r %s/src %s/src; cp -r %s/.cargo %s/.cargo; cp %s/Cargo.lock %s/Cargo.lock" %
+           (d, d, src, src, d, src, d, REPO, d))
+    return os.path.join(root, crate), "/tmp/pvtarget-%s" % tag
 
 
-def harness_build(bins, features="", timeout=1500, profile="release"):
+def harness_build(bins, features="", timeout=1500, profile="release", crate="harness"):
     """Build harness binaries against the repository's current working tree with the hook cfg on."""
-    hdir, target = harness_dir()
+    hdir, target = harness_dir(crate)
     lock_dst = os.path.join(hdir, "Cargo.lock")
     if not os.path.exists(lock_dst):
         sh("cp %s %s" % (os.path.join(REPO, "Cargo.lock"), lock_dst))
-    tdir = target + ("-" + features.replace(",", "-") if features else "")
+    tdir = target + ("-nm" if crate == "harness-nm" else "") + ("-" + features.replace(",", "-") if features else "")
     flags = " ".join("--bin %s" % b for b in bins)
     feat = ("--features " + features) if features else ""
     cmd = "cargo build --%s --offline %s %s 2>&1" % (profile, flags, feat)
